@@ -248,6 +248,7 @@ func verify(c *Ctx, sel func(ct *Contract) bool, want func(name string, tags []s
 				case "sat":
 					if r.Status != "failed" {
 						r.Status = "failed"
+						r.Src, r.Where = ob.Src, ob.Where
 						r.Model = sr.Model
 						r.Query = q
 						r.Solver = sr.Solver
@@ -256,6 +257,7 @@ func verify(c *Ctx, sel func(ct *Contract) bool, want func(name string, tags []s
 				default:
 					if r.Status == "discharged" {
 						r.Status = "undecided"
+						r.Src, r.Where = ob.Src, ob.Where
 						r.Query = q
 						r.Output = sr.Output
 						r.Detail = fmt.Sprintf("no solver decided path %d (%s)", ob.PathID, strings.Join(sr.Tried, " "))
@@ -420,6 +422,7 @@ func cmdVerify(args []string) {
 	timeout := fs.Int("timeout", 10, "solver timeout (s)")
 	dump := fs.String("dump", "", "directory to dump failed/undecided queries")
 	all := fs.Bool("all", false, "print discharged obligations too")
+	fs.BoolVar(&splitGoals, "split", false, "one obligation per top-level conjunct of each goal (debugging)")
 	fs.Parse(args)
 	c, err := loadAll(*repo, *vdir)
 	if err != nil {
